@@ -135,7 +135,6 @@ class ProcessExecutor:
         futures_to_start = list(self._pending_future_to_thunk.keys())[:start_count]
         for future in futures_to_start:
             thunk = self._pending_future_to_thunk[future]
-            del self._pending_future_to_thunk[future]
             process = self.mp_context.Process(
                 target=_subprocess_target,
                 kwargs=dict(
@@ -144,19 +143,26 @@ class ProcessExecutor:
                     result_queue=self._result_queue,
                 ),
             )
+            # Track the future as running before it stops being
+            # pending, so that an interrupt cannot lose it.
             self._running_id_to_future_and_process[future.id] = (future, process)
+            del self._pending_future_to_thunk[future]
             _verif.emit('pstart', t=_verif.future_task(future.id))
             process.start()
 
     def submit(self, fn: Callable, /, *args, **kwargs) -> Future:
         """Schedule the given fn to be called with the given *args and
         **kwargs, and return a Future that will be updated with the
-        outcome of function call."""
+        outcome of function call. The call is started by start_pending()
+        or wait() once a worker is free."""
         future = Future()
         self._pending_future_to_thunk[future] = functools.partial(fn, *args, **kwargs)
         _verif.bind_future(future.id, self._pending_future_to_thunk[future])
-        self._start_processes()
         return future
+
+    def start_pending(self) -> None:
+        """Start processes for pending futures while workers are free."""
+        self._start_processes()
 
     def cancel(self) -> None:
         """Cancel all pending futures."""
@@ -378,6 +384,9 @@ class ProcessRunner(Runner, ABC):
             log_queue=self.log_queue,
         )
         self.future_to_task[future] = task
+        # Only start the task once it is tracked, so that an interrupt
+        # cannot leave behind a running process that is never waited for.
+        self.executor.start_pending()
 
     def wait(self, *, timeout_seconds: Optional[float]) -> Iterator[tuple[Task, ResultMeta | BaseException]]:
         self._consume_log_queue()
